@@ -97,6 +97,21 @@ func genC08(r *Rng, n int, tier string, emit func(Case)) {
 	}
 	for i := 0; i < n; i++ {
 		rr := r.Fork()
+		if i%15 == 14 {
+			// the module's debug() template function, with and without its allowDeep flag, next to JSON output of other renders
+			var jobs []interface{}
+			for j := 0; j < rr.Range(2, 4); j++ {
+				var call J
+				if rr.Bool() {
+					call = eCall(eId("debug"), eId("o"), eBool(false))
+				} else {
+					call = eCall(eId("debug"), eId("o"))
+				}
+				jobs = append(jobs, J{"doc": []interface{}{nBuf(call, false), nText("|"), nBuf(eCall(eDot(eId("JSON"), "stringify"), eId("o")), false)}, "data": mutData(rr)})
+			}
+			emit(Case{"kind": "conc", "manifest": "", "jobs": jobs, "n": []int{4, 16}[rr.Intn(2)], "rounds": 2, "debug": false, "bucket": "debug-func", "njobs": len(jobs)})
+			continue
+		}
 		k := rr.Range(2, 6)
 		var jobs []interface{}
 		useAsset := false
